@@ -175,7 +175,7 @@ def graph_job(prop, tier, seed, job, policy, known, acc):
     spec = job['spec']
     module = job['module']
     cfgname = job.get('cfg', spec)
-    outdir = os.path.join(WORK, prop, cfgname)
+    outdir = os.path.join(WORK, prop, cfgname + job.get('suffix', ''))
     inst, edges, stats = tlc_graph(spec, outdir, cfg=cfgname, workers=job.get('workers', 8), timeout=job.get('tlc_timeout', 1800))
     g = G.Graph(edges)
     byact = summarize_edges(edges)
@@ -218,6 +218,8 @@ def graph_job(prop, tier, seed, job, policy, known, acc):
                 for l in f:
                     w = json.loads(l)
                     walks_by_id[w['id']] = w
+        if job.get('selfcheck'):
+            raise ToolError('harness self-check %s failed: %s' % (module, json.dumps(div)[:800]))
         verdict, reason = classify(div, policy)
         if verdict == 'violation':
             k = match_known(div, prop, known)
